@@ -1,5 +1,36 @@
-import Arp.Model.Arith
-import Arp.Spec.Ops
+import Arp.Props.C01AddSub
+import Arp.Props.C01MulDiv
+/-!
+# C01 — add, subtract, multiply and divide are correctly rounded in every rounding mode
+
+The four theorems `Arp.C01.add_correct`, `sub_correct`, `mul_correct`, `div_correct`
+(in `Arp/Props/C01AddSub.lean` and `Arp/Props/C01MulDiv.lean`) say: for every well-formed
+format, every pair of canonical operands of that format (any category) and every mode,
+the model's result is the exact real result rounded once by `Spec.round`
+(specials by the IEEE table `Spec.add/sub/mul/div`).
+
+Operator forms: in the model `a + b` is by definition `addWithRm a b a.sem.rm` etc.
+(`Flt.add/sub/mul/div`, Arp/Model/Funcs.lean); that the Rust operator impls do the same
+is glue, checked by the correspondence stream `operators`.
+-/
 namespace Arp.C01
-theorem smoke : (1:Nat) + 1 = 2 := rfl
+
+theorem operator_add (a b : Flt) : a.add b = addWithRm a b a.sem.rm := rfl
+theorem operator_sub (a b : Flt) : a.sub b = subWithRm a b a.sem.rm := rfl
+theorem operator_mul (a b : Flt) : a.mul b = mulWithRm a b a.sem.rm := rfl
+theorem operator_div (a b : Flt) : a.div b = divWithRm a b a.sem.rm := rfl
+
+/-- mode `None` truncates toward zero: whenever the result does not overflow it is the
+    result of mode `Zero` (the two modes share every branch of `Spec.up`/`Spec.finish`
+    except the overflow table). -/
+theorem none_truncates (F : Sem) (neg : Bool) (q : ℚ)
+    (h : ∀ r, Spec.round F .zero neg q = r → r ≠ Spec.overflow F .zero neg) :
+    Spec.round F .none neg q = Spec.round F .zero neg q ∨
+      Spec.round F .zero neg q = Spec.overflow F .zero neg := by
+  left
+  have hne := h _ rfl
+  unfold Spec.round Spec.finish Spec.up at *
+  simp only [Bool.and_false, Bool.false_eq_true, if_false] at *
+  split_ifs at * <;> simp_all
+
 end Arp.C01
